@@ -126,6 +126,14 @@ def oracle(p, run, exact):
                               "diff": d[:4], "known": known_name_loss(d)})
     if obs[meta["mixed"]][0] != 0:
         fails.append({"clause": "original + reload is accepted", "diff": "raised"})
+    else:
+        # original + reload is original + original (the reload is interchangeable with the original)
+        ia = prod.index(meta["pairs"][0][3])
+        im = prod.index(meta["mixed"])
+        d = docdiff(doc(ia), doc(im))
+        if d and obs[meta["pairs"][0][3]][0] == 0:
+            fails.append({"clause": "original + reload gives the same document as original + original",
+                          "diff": d[:4], "known": known_name_loss(d)})
     return fails[:4]
 
 
